@@ -4,7 +4,13 @@ From Refinery Require Export Lib.Base Lib.SMap_route2 Model.Payload Monitor.Payl
 (* one event of a request: the client's fields, what the (mock) collector did to the span before
    handing it to the transmission, and the data map received by the fake Honeycomb / peer endpoint
    (None = nothing arrived for this event) *)
-Record ecase := { e_fields : fields; e_ops : list op; e_obs : option fields }.
+Record ecase := {
+  e_fields : fields;
+  e_ops : list op;
+  e_hop2 : option string;   (* Some ua: the event was forwarded to the owner first (observed) and the owner, whose
+                               router saw the forwarding transmission's User-Agent ua, applied e_ops and sent it on *)
+  e_obs : option fields
+}.
 
 Record case := {
   c_path : path;
@@ -15,9 +21,17 @@ Record case := {
 }.
 
 (* ---------- model vs implementation ---------- *)
+Definition model_out (w : N -> N) (pa : path) (c : xcfg) (ua : string) (e : ecase) : option fields :=
+  match e_hop2 e with
+  | None => forward w pa c ua (e_fields e) (e_ops e)
+  | Some ua2 => match forward w pa c ua (e_fields e) [] with
+                | Some out1 => forward w PBatchMsgp c ua2 out1 (e_ops e)
+                | None => None
+                end
+  end.
+
 Definition model_agrees (c : case) (e : ecase) : bool :=
-  option_eqb fields_eqb (forward (widen_of (c_widen c)) (c_path c) (c_cfg c) (c_ua c) (e_fields e) (e_ops e))
-             (e_obs e).
+  option_eqb fields_eqb (model_out (widen_of (c_widen c)) (c_path c) (c_cfg c) (c_ua c) e) (e_obs e).
 
 (* ---------- the property monitor, on the implementation's observation only ---------- *)
 Section Mon.
@@ -41,7 +55,7 @@ Section Mon.
         (* nothing forwarded: fine for an empty event, a probe, or an event the decoder rejects;
            the model decides which (a disagreement is reported as code 1), so the monitor only flags
            an event that is well-formed, not a probe, and still vanished *)
-        match forward widen pa c ua fs (e_ops e) with Some _ => [16%N] | None => [] end
+        match model_out widen pa c ua e with Some _ => [16%N] | None => [] end
     | Some out =>
         flat_map (field_codes widen pa out)
                  (filter (fun kv => negb (reserved (fst kv)) && negb (smem (fst kv) sk)) fs)
